@@ -351,7 +351,7 @@ def gen_graph(rng):
 
 
 def plan(tier, seed, n):
-    per, ng = (250, 6) if tier == 'quick' else (10000, 150)
+    per, ng = (600, 10) if tier == 'quick' else (30000, 400)
     return [{'n': per, 'ng': ng} for _ in range(n)]
 
 
